@@ -7,6 +7,7 @@ package main
 import (
 	"bufio"
 	"bytes"
+	"encoding/json"
 	"fmt"
 	"go/ast"
 	"go/parser"
@@ -38,7 +39,34 @@ func astutilPath(f *ast.File, start, end token.Pos) ([]ast.Node, bool) {
 // returns the set of "file:line:col" positions (absolute file names) at which
 // a bounds check remains, i.e. which the prove pass could not discharge.
 func bceList(c *Ctx) (map[string]bool, error) {
-	cmd := exec.Command("go", "build", "-gcflags=rare/...=-l -d=ssa/check_bce/debug=1", "-o", "/dev/null", "./...")
+	args := []string{"build", "-gcflags=rare/...=-l -d=ssa/check_bce/debug=1", "-o", "/dev/null"}
+	if len(c.Overlay) > 0 {
+		// the normalised view: compile the same replaced sources (go build -overlay), so that the
+		// listed positions are positions of the text that was analysed
+		dir, err := os.MkdirTemp("", "rarecheck-overlay-")
+		if err != nil {
+			return nil, err
+		}
+		defer os.RemoveAll(dir)
+		repl := map[string]string{}
+		i := 0
+		for f, src := range c.Overlay {
+			i++
+			tmp := filepath.Join(dir, fmt.Sprintf("f%d.go", i))
+			if err := os.WriteFile(tmp, src, 0o644); err != nil {
+				return nil, err
+			}
+			repl[f] = tmp
+		}
+		js, _ := json.Marshal(map[string]interface{}{"Replace": repl})
+		ov := filepath.Join(dir, "overlay.json")
+		if err := os.WriteFile(ov, js, 0o644); err != nil {
+			return nil, err
+		}
+		args = append(args, "-overlay", ov)
+	}
+	args = append(args, "./...")
+	cmd := exec.Command("go", args...)
 	cmd.Dir = c.Repo
 	cmd.Env = goEnv("GOOS="+c.Config.GOOS, "GOARCH="+c.Config.GOARCH, "CGO_ENABLED=0")
 	var stderr bytes.Buffer
@@ -1120,7 +1148,6 @@ func renameIdents(s string, m map[string]string) string {
 		return t
 	})
 }
-
 
 // extractedFrom: when the obligation sits in an unexported function or method
 // all of whose calls come from one top-level function F of the same package
